@@ -6,7 +6,7 @@ TB = ("Trusted: Lean 4.33 kernel; axioms propext/Classical.choice/Quot.sound onl
       "executable checker grcv; tools/gen.py (IR and GDL text denote the same program), tools/ttf.py font builder; python harness. ")
 CHECKS = {
  "C01": dict(
-   technique="Lean 4 theorems on the value fragment of the Graphite stack machine (decompiler soundness for all states, constant folding, constant encoding) + decompile-and-compare of the action/constraint code of real output with the source expressions + a Lean reference interpreter of the rule language compared with libgraphite2 on the compiled fonts; PARTIAL (substitution and simple positioning passes; no attachment, justification, collision)",
+   technique="Lean 4 theorems on the value fragment of the Graphite stack machine (decompiler soundness for all states, constant folding, constant encoding) + decompile-and-compare of the action/constraint code of real output with the source expressions + a Lean reference interpreter of the rule language compared with libgraphite2 on the compiled fonts; PARTIAL (substitution and positioning passes incl. attachment; no justification, collision, line-break items)",
    text=("Proof (partial): Grc.Sem.decomp_sound / decomp_value - for every sequence of value instructions (8/16/32-bit constant pushes, arithmetic, comparison, logic, conditional, slot-attribute, "
          "glyph-attribute, feature reads) and every engine state, execution yields exactly the values of the decompiled expression trees, including when the machine stops (division by zero, INT_MIN/-1); "
          "evalS_fold and evalS_foldC (constant folding, also of conditionals with constant tests, preserves / refines the meaning); decode_encode (every 32-bit integer is pushed back as itself by the "
@@ -16,10 +16,10 @@ CHECKS = {
          "(reference frame of the item: own input index, for an inserted item that of the preceding input item); the rule constraint must be the conjunction of the enclosing feature tests and the item "
          "tests. Tie T2: Grc.Eng.shape, a reference interpreter written from the language description (passes in order; left-to-right scan; first matching rule in precedence order with leading "
          "context and item constraints and feature tests; substitution by class correspondence with selectors, insertion, deletion, @n copies, user attributes in 32-bit arithmetic / 16-bit storage, "
-         "associations, ^, positioning passes assigning advance.x / shift.x / shift.y / kern.x from expressions that read slot attributes and the advancewidth metric), is run on the IR and "
+         "associations, ^, positioning passes assigning advance.x / shift.x / shift.y / kern.x from expressions that read slot attributes and the advancewidth metric, attachment of marks to bases and to other marks with the engine's cluster positioning), is run on the IR and "
          "compared with libgraphite2 on the compiled font: glyph sequence, user attributes, associations, positions (x, y, advance), for about 2200 (thorough: 45000) generated texts "
-         "over seven program families and feature settings; one-rule programs additionally compare every user attribute with a direct evaluation."),
-   note=TB + "The interpreter is a specification executed against the real engine, not a proved object (one sanity theorem: a pass without rules is the identity). NOT modelled: attachment, justification, collision, advance.y / measure attributes, line-break items, the MaxRuleLoop counter (runs where a rule application does not advance are reported as outside the fragment and skipped), associations of items deleted without an explicit association (compiler policy). One point follows libgraphite2 rather than the GDL text: @k reads an item's slot as matched if the rule changes its glyph, and in its current state if the rule only sets attributes on it. libgraphite2 stores user attributes in 16 bits.",
+         "over eight program families and feature settings; one-rule programs additionally compare every user attribute with a direct evaluation."),
+   note=TB + "The interpreter is a specification executed against the real engine, not a proved object (one sanity theorem: a pass without rules is the identity). NOT modelled: justification, collision, right-to-left, advance.y / measure attributes, line-break items, the MaxRuleLoop counter (runs where a rule application does not advance are reported as outside the fragment and skipped), associations of items deleted without an explicit association (compiler policy). One point follows libgraphite2 rather than the GDL text: @k reads an item's slot as matched if the rule changes its glyph, and in its current state if the rule only sets attributes on it. libgraphite2 stores user attributes in 16 bits.",
    design="4/C01"),
  "C03": dict(
    technique="strict Lean decoders + Lean theorem Code.check_sound (accepted code returns without underflow under every context-item outcome), opcode table regenerated from constants.h; run on real output over the option matrix; libgraphite2 acceptance",
